@@ -81,6 +81,35 @@ mod h {
             }
         };
     }
+    /// The same with a CONCRETE mixed-case address, all six parameterisations in sequence.  It adds no
+    /// input coverage on a correct tree; it exists because an implementation that transforms the address
+    /// with Unicode-aware string code does not finish under CBMC for symbolic bytes (the symbolic
+    /// harnesses then only become inconclusive), while a concrete string is constant-folded.
+    #[kani::proof]
+    #[kani::unwind(7)]
+    fn enc_concrete_mixed_case() {
+        let b: [u8; 4] = *b"aB_Z";
+        let addr = Addr::unchecked(as_str(&b));
+        macro_rules! one {
+            ($e:expr) => {
+                match &record(&$e) {
+                    Ok(rec) => assert!(is_addr_object(rec, &b), "encodes as {{\"addr\": <address string>}} unchanged (case preserved)"),
+                    Err(_) => assert!(false, "a handle serialises"),
+                }
+            };
+        }
+        one!(Remote::<Ct>::new(addr.clone()));
+        one!(Remote::<Ct>::borrowed(&addr));
+        one!(Remote::<Rp>::new(addr.clone()));
+        one!(Remote::<dyn Ifa<Error = CtErr>>::new(addr.clone()));
+        one!(Remote::<dyn Ifb<Error = CtErr>>::borrowed(&addr));
+        one!(Remote::<()>::new(addr.clone()));
+        let owned = Remote::<Ct>::new(addr.clone());
+        assert!(str_eq(owned.as_ref().as_str(), "aB_Z"), "the handle reports the address it was given");
+        kani::cover!(true, "reached");
+        core::mem::forget((owned, addr));
+    }
+
     enc_harness!(enc_0, 0);
     enc_harness!(enc_1, 1);
     enc_harness!(enc_3, 3);
